@@ -246,6 +246,96 @@ fn threads(em: &mut Emit, rng: &mut Rng, nthreads: usize, per_thread: usize, rou
     }
 }
 
+// ------------------------------------------------------------------ rendezvous rounds
+
+/// All threads are inside an execution at the same time: every program calls the host function
+/// `rv` once, at the bottom of a deep expression, and `rv` waits (bounded) until every thread
+/// of the round has arrived.  State that executions share behind the caller's back (counters,
+/// caches, scratch buffers) is then observed by all of them at once; each result is still what
+/// the model gives for that program alone.
+fn rendezvous(em: &mut Emit, rng: &mut Rng, nthreads: usize, per_thread: usize, round: u64) {
+    use std::sync::atomic::{AtomicUsize, Ordering};
+    use std::time::{Duration, Instant};
+    let spec = CtxSpec {
+        vars: vec![
+            ("xs".to_string(), Value::List(Arc::new(vec![Value::Int(1), Value::Int(2), Value::Int(3)]))),
+            ("s".to_string(), Value::String(Arc::new("ab".to_string()))),
+            ("n".to_string(), Value::Int(5)),
+        ],
+        funs: vec![HostFn { kind: "h0", name: "rv".to_string() }],
+    };
+    let mut root: Context<'static> = spec.build();
+    let arrived = Arc::new(AtomicUsize::new(0));
+    let a2 = arrived.clone();
+    let nt = nthreads;
+    root.add_function("rv", move || -> Result<Value, cel_interpreter::ExecutionError> {
+        logcall("rv", &[]);
+        let me = a2.fetch_add(1, Ordering::SeqCst);
+        let target = (me / nt + 1) * nt;
+        let deadline = Instant::now() + Duration::from_millis(400);
+        while a2.load(Ordering::SeqCst) < target && Instant::now() < deadline {
+            std::thread::yield_now();
+        }
+        Ok(Value::Int(7))
+    });
+    let mut progs: Vec<(String, Program)> = Vec::new();
+    for _ in 0..per_thread {
+        let depth = 40 + rng.below(90) as usize;
+        let mut src = match rng.below(4) {
+            0 => "rv()".to_string(),
+            1 => "xs.map(x, x * 2)[2] + rv()".to_string(),
+            2 => "(n > 3 ? rv() : 0)".to_string(),
+            _ => "size(s + 'c') + rv()".to_string(),
+        };
+        for i in 0..depth {
+            match rng.below(5) {
+                0 => src = format!("({}) + tid", src),
+                1 => src = format!("-(-({}))", src),
+                2 => src = format!("(true ? {} : 0)", src),
+                _ => src.push_str(&format!(" + {}", i % 3)),
+            }
+        }
+        let p = Program::compile(&src).expect("rendezvous program compiles");
+        progs.push((src, p));
+    }
+    let progs = &progs;
+    let root = &root;
+    let results: Vec<Vec<String>> = std::thread::scope(|s| {
+        let handles: Vec<_> = (0..nthreads)
+            .map(|t| {
+                std::thread::Builder::new()
+                    .stack_size(256 << 20)
+                    .spawn_scoped(s, move || {
+                        let mut inner = root.new_inner_scope();
+                        inner.add_variable_from_value("tid", Value::Int(t as i64));
+                        let mut out = Vec::new();
+                        for (_, p) in progs.iter() {
+                            let inner_ref = &inner;
+                            out.push(guarded(std::panic::AssertUnwindSafe(move || exec_wire(p, inner_ref))));
+                        }
+                        out
+                    })
+                    .expect("spawn")
+            })
+            .collect();
+        handles.into_iter().map(|h| h.join().unwrap_or_default()).collect()
+    });
+    for (t, outs) in results.iter().enumerate() {
+        let ctxw = spec.wire_with_inner(&[("tid".to_string(), Value::Int(t as i64))]);
+        if outs.len() != per_thread {
+            em.case("(echo (bool true))", "(law-violated a thread died)", "nt=1;kind=law-thread", &format!("rendezvous round {} thread {}", round, t));
+        }
+        for (k, w) in outs.iter().enumerate() {
+            em.case(
+                &format!("(evalsrc {} {})", ctxw, sx_str(&progs[k].0)),
+                w,
+                &format!("nt=1;kind=rendezvous-{}", nthreads),
+                &format!("rendezvous round {} thread {}/{}: {}", round, t, nthreads, progs[k].0),
+            );
+        }
+    }
+}
+
 // ------------------------------------------------------------------ heap model correspondence
 
 #[derive(Clone)]
@@ -399,6 +489,9 @@ pub fn run(em: &mut Emit, thorough: bool, seed: u64) {
         for &n in if thorough { &[2usize, 3, 4, 6, 8, 12, 16][..] } else { &[2usize, 4, 8, 16][..] } {
             let per = if thorough { 200 } else { 60 };
             threads(em, &mut rng, n, per, r);
+        }
+        for &n in if thorough { &[2usize, 4, 8, 16][..] } else { &[4usize, 16][..] } {
+            rendezvous(em, &mut rng, n, if thorough { 12 } else { 4 }, r);
         }
     }
 }
